@@ -88,6 +88,11 @@ package relay
 //@ ensures result != nil ==> len(c.total) <= len(old(c.total))
 //@ ensures result != nil ==> forall k string :: len(c.ips[k]) <= len(old(c.ips[k]))
 //@ ensures result != nil ==> forall k uint32 :: len(c.asns[k]) <= len(old(c.asns[k]))
+// a refused request must not change what is counted for a peer whose (unexpired) reservation stays valid at the relay:
+// handleReserve keeps r.rsvp[p] when Reserve fails, so forgetting p here lets later requests exceed the caps.
+// KNOWN FINDING (open, /verif/known-findings.json): this clause fails on the current code.
+//@ ensures result != nil && (exists i int :: 0 <= i && i < len(old(c.total)) && old(c.total)[i].Peer == p && !(old(c.total)[i].Expiry < ret(Now, 0, 0))) ==>
+//@         (exists j int :: 0 <= j && j < len(c.total) && c.total[j].Peer == p)
 //@ modifies c.total, contents(c.ips), contents(c.asns)
 
 // ---------------------------------------------------------------------------
